@@ -6,7 +6,8 @@ R10.2  write-sink containment: every filesystem write sink of the generation pat
        function's own parameters / object state (never cwd, home, environment, absolute or bare relative constants)
 R10.3  destructive operations: an exact table; rmtree(out_dir) only where `force or not out_dir.exists()` holds
        (truth-table of the branch test); ancestor __init__ loops stop at project_root
-R10.4  failures surface: no exception handler on the generate() call graph swallows an error of an emit step
+R10.4  failures surface: no exception handler (or `with suppress(...)` around a write) on the generate() call graph swallows an error of an emit step
+R10.7  the in-place rewriting tools of the post-processor get generated files only, never a directory obtained by climbing
 R10.5  temp cleanup is structural (`with tempfile.TemporaryDirectory()` encloses all temp generation) and the
        diff result raises before anything else happens
 """
@@ -349,6 +350,7 @@ def run(repo: Repo, rep: Report, tier: str) -> None:
                       "a difference reported by _show_diffs does not lead to `raise GenerationError` (some result is ignored)", gen.loc(sw))
 
     diff_coverage(repo, rep, "R10.6", gen, diff_body)
+    rule_postprocess_targets_are_files(repo, rep, "R10.7")
 
     # ---------------------------------------------------------------- R10.2 / R10.3 sinks over the generation path
     live = repo.import_closure(["generator.client_generator"])
@@ -544,8 +546,60 @@ def run(repo: Repo, rep: Report, tier: str) -> None:
                     rep.violation("R10.4", sub, f"{fn.fq}|swallow|{hn}|{norm(h.body[0])[:60]}",
                                   f"an error in this emit step is swallowed (`except {hn}` continues without raising): generation reports success "
                                   "with a missing/partial file", fn.loc(h))
+    # `with contextlib.suppress(...)` is a handler too: around a write of generated output it turns a failed write into a silent success
+    ex = ast.parse(_SUPPRESS_EXAMPLE).body[0]
+    rep.require(len(_suppressed_writes(ex)) == 1 and bool(_suppressed_writes(ex)[0][1]), "R10.4: the built-in positive example of a suppressed write is no longer recognised - the rule is broken")
+    n_sup = 0
+    for fq in sorted(reach):
+        fn = cg.funcs[fq]
+        for w, sup, writes in _suppressed_writes(fn.node):
+            n_sup += 1
+            sub = f"{fn.module.relpath}:{fn.qualname} with suppress(...) (L{w.lineno})"
+            if writes:
+                rep.violation("R10.4", sub, f"{fn.fq}|suppress-around-write|{writes[0][1][:40]}",
+                              f"`{norm(writes[0][0])[:60]}` runs inside `with {norm(sup)}`: a failing write of generated output is dropped silently - "
+                              "the run reports success (or 'no differences') with a file missing", fn.loc(w))
+            else:
+                rep.ok("R10.4", sub, "suppresses errors of scratch / log writes only", fn.loc(w))
+    rep.count("R10.4:suppress_blocks", n_sup)
     rep.count("R10.4:handlers_in_emitters", n_h)
     rep.require(n_h >= 6, f"R10.4: only {n_h} exception handlers found in emitters/generator (floor 6)")
+
+
+_SUPPRESS_EXAMPLE = '''
+def write_file(self, path, content):
+    log = os.path.join(tempfile.gettempdir(), "debug.log")
+    with contextlib.suppress(OSError):
+        with open(log, "a") as d:
+            d.write(path)
+        with open(path, "w") as f:
+            f.write(content)
+'''
+
+
+def _suppressed_writes(fn_node: ast.AST):
+    """[(with node, suppress call, [(write call, origin of its destination)])] for every `with suppress(...)` of the function; writes below
+    the system temp directory (scratch / debug files) are not listed"""
+    out = []
+    L4 = _L10(fn_node)
+    for w in [n for n in own_nodes(fn_node) if isinstance(n, ast.With)]:
+        sup = [it for it in w.items if isinstance(it.context_expr, ast.Call) and (dotted(it.context_expr.func) or "").split(".")[-1] == "suppress"]
+        if not sup:
+            continue
+        writes = []
+        for c in [c for st in w.body for c in ast.walk(st) if isinstance(c, ast.Call)]:
+            d = dotted(c.func) or ""
+            is_open_w = d in ("open", "io.open") and any(isinstance(a, ast.Constant) and isinstance(a.value, str) and set(a.value) & set("wax+")
+                                                         for a in list(c.args[1:]) + [k.value for k in c.keywords if k.arg == "mode"])
+            is_write = isinstance(c.func, ast.Attribute) and c.func.attr in ("write_text", "write_bytes", "write_file", "mkdir", "makedirs", "rename", "replace", "copy", "copy2", "copytree")
+            if is_open_w or is_write:
+                dst = c.args[0] if (is_open_w and c.args) else (c.func.value if isinstance(c.func, ast.Attribute) else None)
+                origin = norm(L4.inline(dst, stop=tuple(L4.params))) if dst is not None else ""
+                if "gettempdir" in origin or "mkdtemp" in origin:
+                    continue
+                writes.append((c, origin or "?"))
+        out.append((w, sup[0].context_expr, writes))
+    return out
 
 
 def _only_writes_readme(fn: Function, tr: ast.Try) -> bool:
@@ -591,3 +645,67 @@ def _always_raises(body: List[ast.stmt]) -> bool:
         if isinstance(st, (ast.Return, ast.Continue, ast.Break)):
             return False
     return False
+
+
+# ------------------------------------------------------------------------------------------------ R10.7 rewriting tools get the generated files only
+def rule_postprocess_targets_are_files(repo: Repo, rep, rule: str = "R10.7") -> None:
+    """The post-processor rewrites files in place (ruff `--fix`, `ruff format`).  What it hands to those tools must be the generated
+    files it was given - never a directory obtained by climbing (`.parent`, `.parents`, dirname): a directory makes the tool walk and
+    rewrite everything below it, including hand-written siblings of the output package.  For every call in PostprocessManager.run to
+    a method of the class that starts a rewriting subprocess, the argument's definitions are followed through the locals of `run`."""
+    pm = repo.module("core.postprocess_manager")
+    cls = pm.classes.get("PostprocessManager")
+    if cls is None or "run" not in cls.methods:
+        raise AnalysisError(f"{rule}: anchor vanished: PostprocessManager.run")
+    rewriting = set()
+    for name, m in cls.methods.items():
+        for c in calls_in(m.node):
+            if (dotted(c.func) or "").startswith("subprocess.") and any(
+                    isinstance(k, ast.Constant) and isinstance(k.value, str) and (k.value in ("--fix", "format", "--fix-only", "--unsafe-fixes")) for k in ast.walk(c)):
+                rewriting.add(name)
+    rep.require(len(rewriting) >= 3, f"{rule}: only {len(rewriting)} rewriting tool wrappers found in PostprocessManager (floor 3)")
+    run = cls.methods["run"]
+    defs: Dict[str, List[ast.AST]] = {}
+    for st in ast.walk(run.node):
+        if isinstance(st, ast.Assign):
+            for t in st.targets:
+                for x in ast.walk(t):
+                    if isinstance(x, ast.Name) and isinstance(x.ctx, ast.Store):
+                        defs.setdefault(x.id, []).append(st.value)
+        elif isinstance(st, (ast.AnnAssign, ast.AugAssign)) and isinstance(st.target, ast.Name) and st.value is not None:
+            defs.setdefault(st.target.id, []).append(st.value)
+        elif isinstance(st, (ast.For, ast.comprehension)):
+            for x in ast.walk(st.target):
+                if isinstance(x, ast.Name):
+                    defs.setdefault(x.id, []).append(st.iter)
+        elif isinstance(st, ast.Call) and isinstance(st.func, ast.Attribute) and isinstance(st.func.value, ast.Name) and st.func.attr in ("append", "extend", "add", "update", "insert"):
+            for a in st.args:
+                defs.setdefault(st.func.value.id, []).append(a)
+
+    def climbs(e: ast.AST, seen: Set[str]) -> Optional[ast.AST]:
+        for x in ast.walk(e):
+            if isinstance(x, ast.Attribute) and x.attr in ("parent", "parents"):
+                return x
+            if isinstance(x, ast.Call) and (dotted(x.func) or "").endswith("dirname"):
+                return x
+            if isinstance(x, ast.Name) and x.id in defs and x.id not in seen:
+                seen.add(x.id)
+                for v in defs[x.id]:
+                    r = climbs(v, seen)
+                    if r is not None:
+                        return r
+        return None
+
+    n = 0
+    for c in calls_in(run.node):
+        if isinstance(c.func, ast.Attribute) and isinstance(c.func.value, ast.Name) and c.func.value.id == "self" and c.func.attr in rewriting and c.args:
+            n += 1
+            sub = f"{pm.relpath}:PostprocessManager.run -> {c.func.attr}({norm(c.args[0])[:30]})"
+            w = climbs(c.args[0], set())
+            if w is None:
+                rep.ok(rule, sub, "the targets are (a filter of) the files handed to run(): no directory obtained by climbing reaches the rewriting tool", run.loc(c))
+            else:
+                rep.violation(rule, sub, f"{run.fq}|rewrites-climbed-directory|{c.func.attr}",
+                              f"`{norm(c.args[0])[:40]}` can hold a path obtained through `{norm(w)[:40]}`: the tool then walks that directory and rewrites files the "
+                              "generator never wrote (hand-written modules next to the output package)", run.loc(c))
+    rep.require(n >= 3, f"{rule}: only {n} calls of rewriting tool wrappers found in PostprocessManager.run (floor 3)")
